@@ -162,6 +162,8 @@ def build(seed, tier):
             if cls in ('log', 'debug'):
                 # logging commands: the item is the message; they return nothing, the object is found in the report
                 op['pos'] = [repr('note %d' % i)]
+                if r.random() < 0.4:
+                    op['pos'].append(repr('second item %d' % i))     # debug: one feedback per item; log: one, items joined
                 if r.random() < 0.5:
                     kw['value'] = r.choice(VALUES)
                 if r.random() < 0.2:
@@ -196,6 +198,8 @@ def build(seed, tier):
                     continue          # give_partial(value) takes its score positionally
                 if r.random() < 0.8:
                     kw[f] = r.choice(VALUES) if f != 'where' else r.choice(['3', '10', 'None', "Field(9)"])
+            if cls == 'const_fb' and r.random() < 0.35:
+                kw['hint'] = r.choice(["'caller hint'", '7', "''"])       # a keyword named like one of the class's constants
             if r.random() < 0.15:
                 kw['fields'] = "{'value': %s, 'extra': 1}" % r.choice(VALUES)
             if r.random() < 0.12:
@@ -424,7 +428,7 @@ def execute(spec):
                         for fname in (kw.get('field_names') or []):
                             if fname not in kw and fname not in exp_fields:
                                 exp_fields[fname] = None
-                        for fname in ('value', 'who', 'where'):
+                        for fname in ('value', 'who', 'where', 'hint'):
                             if fname in kw:
                                 exp_fields[fname] = kw[fname]
                         obj._verif_exp_fields = exp_fields
@@ -437,7 +441,11 @@ def execute(spec):
                             exp = 'dynamic ' + str(exp_fields.get('value'))
                         elif 'message' in mkw:
                             exp = eval(mkw['message'])
-                        elif mk.get('pos') and mk['cls'] in ('gently', 'explain', 'compliment', 'guidance', 'log', 'debug'):
+                        elif mk.get('pos') and mk['cls'] == 'log':
+                            exp = ' '.join(eval(x) for x in mk['pos'])
+                        elif mk.get('pos') and mk['cls'] == 'debug':
+                            exp = eval(mk['pos'][-1])             # the object looked at is the one recorded last
+                        elif mk.get('pos') and mk['cls'] in ('gently', 'explain', 'compliment', 'guidance'):
                             exp = eval(mk['pos'][0])
                         elif type(obj).message is not None:
                             exp = type(obj).message
